@@ -528,6 +528,13 @@ func variantPairs(tier string) []pairCase {
 		pairCase{"ATG--CC-CAAATTA", "ATGGT--ACAAATTA", "insertion of two, deletion of two, insertion"},
 		pairCase{"ATGCCCAAA-T-TA", "ATGCCCAAAG-CTA", "insertion, deletion, insertion near the end"},
 		pairCase{"-A-TGCCCAAATTA", "G-CTGCCCAAATTA", "insertion before base 1, deletion of base 1, insertion"})
+	// inserted bases that are N or ?: they are query bases like any other (L counts them), only '-' is absent
+	out = append(out,
+		pairCase{"ATG----CCCAAATTA", "ATGACNTCCCAAATTA", "insertion of four with an N inside"},
+		pairCase{"ATG----CCCAAATTA", "ATGNNCTCCCAAATTA", "insertion of four beginning with NN"},
+		pairCase{"ATG--CCCAAATTA", "ATGNNCCCAAATTA", "insertion of NN"},
+		pairCase{"ATG---CCCAAATTA", "ATGA?TCCCAAATTA", "insertion with a ? inside"},
+		pairCase{"ATGCCCAAATTA--", "ATGCCCAAATTANN", "insertion of NN after the last base"})
 	// deleted base(s), the query's own insertion, deleted base(s) - no aligned base in between: the reference bases
 	// P..P+L-1 absent from the query are one run whatever the query inserts among them
 	out = append(out,
